@@ -50,6 +50,19 @@ theorem join_first_path (w : World) (d : Nat) (v : View) :
     Impl.getMask w d v = firstAlong Impl.joinMask w (paths w (w.length + 1) d []) v :=
   getMask_eq_first _ implJoinMask_good w _ d [] v (by simp) (by have := unflagged_le w []; omega)
 
+/-- **What an admissible path is.** The paths the oracle ranges over are exactly the declarative
+simple join paths (`JoinPath`): from `d`, through datasets that cannot evaluate the selection, never
+visiting a dataset twice, to a dataset that can.  (`#datasets + 1` fuel reaches all of them.) -/
+theorem paths_iff_joinPath (w : World) (d : Nat) (steps : List (Nat × Join)) (e : Nat) :
+    (steps, e) ∈ paths w (w.length + 1) d [] ↔ JoinPath w d [] steps e := by
+  constructor
+  · exact joinPath_of_mem_paths w _ d [] steps e
+  · intro h
+    apply mem_paths_of_joinPath w d [] steps e h
+    have := joinPath_length w d [] steps e h (by simp)
+    have := unflagged_le w []
+    omega
+
 theorem join_incompatible_iff (w : World) (d : Nat) (v : View) :
     Impl.getMask w d v = .incompatible ↔ paths w (w.length + 1) d [] = [] := by
   rw [join_first_path]
